@@ -5,7 +5,8 @@
 //	cell <kind> <preload 0|1> <limit> <passes> <n> <consumers> <cancel> [<eof layout 0..3> [<fs 0|1>]]
 //
 // kind: uri uripost raw jsonl jsona scenhttp scengrpc grpcjson decode; <cancel> is "-" or the
-// number of items after which the context is cancelled (always set when limit=passes=0). <eof>: how
+// number of items after which the context is cancelled (always set when limit=passes=0), or "pre": the
+// context is already cancelled when Run is called and the consumers are already waiting in Acquire. <eof>: how
 // the ammo file ends (a08.EOFLayouts: final newline / none / trailing blanks+CR / blank lines); the
 // entries are the same in every layout, so the model does not look at it.
 // <fs>: the file system the ammo file lives on (a08.FsMem: afero mem files, a08.FsOS: a real file
@@ -55,8 +56,8 @@ func runCell(c string) (out string) {
 	passes, _ := strconv.Atoi(f[4])
 	n, _ := strconv.Atoi(f[5])
 	consumers, _ := strconv.Atoi(f[6])
-	cancel := -1
-	if f[7] != "-" {
+	cancel, pre := -1, f[7] == "pre"
+	if f[7] != "-" && !pre {
 		cancel, _ = strconv.Atoi(f[7])
 	}
 	b, err := a08.BuildFS(kind, preload, limit, passes, a08.DefaultEntries(n), nil, eof, fsKind)
@@ -64,7 +65,7 @@ func runCell(c string) (out string) {
 		return "0 - closed construct -" // the constructor refused the file: there is no Run and no sink
 	}
 	defer b.Cleanup()
-	o := a08.Observe(b, consumers, cancel, limit+passes*n+1000)
+	o := a08.ObserveMode(b, consumers, cancel, limit+passes*n+1000, pre)
 	h := "-"
 	if o.Run != "hang" && o.Run != "panic" {
 		h = b.Audit.Summary() // Run has returned: its deferred calls are done
@@ -174,6 +175,17 @@ func gen(r *vh.Rand, tier string) []string {
 			}
 		}
 	}
+	// the run context is already cancelled when Run is called, consumers already waiting in Acquire:
+	// the provider returns promptly and releases them, whatever its bounds
+	for _, pc := range provCfgs() {
+		for _, lp := range [][2]int{{0, 0}, {3, 0}, {0, 2}, {2, 2}} {
+			for _, n := range []int{1, 3} {
+				for _, cons := range []int{1, 3} {
+					out = append(out, fmt.Sprintf("cell %s %d %d %d %d %d pre %d %d", pc.kind, pc.preload, lp[0], lp[1], n, cons, len(out)%a08.EOFLayouts, (len(out)/2)%a08.FsKinds))
+				}
+			}
+		}
+	}
 	// every provider under the real engine: instances see end of ammo, Engine.Run returns nil
 	for _, pc := range provCfgs() {
 		for _, lp := range [][2]int{{3, 0}, {0, 2}, {4, 3}, {7, 2}} {
@@ -198,6 +210,9 @@ func gen(r *vh.Rand, tier string) []string {
 		cancel := "-"
 		if (limit == 0 && passes == 0) || r.Chance(1, 3) {
 			cancel = strconv.Itoa(r.Range(0, 3*n+2))
+			if r.Chance(1, 6) {
+				cancel = "pre"
+			}
 		}
 		out = append(out, fmt.Sprintf("cell %s %d %d %d %d %d %s %d %d", pc.kind, pc.preload, limit, passes, n, r.Range(1, 4), cancel, r.Intn(a08.EOFLayouts), r.Intn(a08.FsKinds)))
 	}
